@@ -284,5 +284,6 @@ func VrfC01Commit() {
 	}
 	vrf_assert(oplog.attempts <= retries+1, "C01.commit.bounded-attempts")
 	vrf_assert(vrfRedirectCalls <= retries+1, "C01.commit.bounded-attempts")
+	vrf_assert(vrf_locks_held() == 0, "C01.commit.shutdown-lock-released")
 	vrf_reach("C01.commit.end")
 }
